@@ -19,8 +19,11 @@ for p in props:
     m = importlib.import_module("checks." + pid.lower())
     if getattr(m, "NOT_CLAIMED", None):
         na.append({"property_id": pid, "reason": m.NOT_CLAIMED}); continue
-    eng = getattr(m, "ENGINE", "vlib")
+    src = open(path).read()
+    eng = getattr(m, "ENGINE", "vloop" if ("vloop" in src or "_harness" in src or "peers_" in src) else "vlib")
     engines.setdefault(eng, []).append(pid)
+    if "refcrypto" in src or "peers_secure" in src or "ds_harness" in src:
+        engines.setdefault("refcrypto", []).append(pid)
     checks.append({
         "property_id": pid,
         "quick_cmd": f"{PY} {pid} --tier quick",
@@ -35,7 +38,7 @@ for p in props:
 ENG = {
  "vlib": ("vlib/run.py", "harness: tiers, seeds, shards, three-valued verdicts, evidence, replay, known-finding classification; pure input/output oracles on the real codecs"),
  "vloop": ("vlib/vloop.py", "virtual-time asyncio loop with in-memory datagram/stream endpoints; the real xknx connection and core classes run on it against scripted peers; definite-deadlock detection"),
- "refcrypto": ("vlib/refcrypto.py", "independent KNX Data Secure / IP Secure CCM written from the specification on single-block AES only"),
+ "refcrypto": ("vlib/refcrypto_ds.py + vlib/refcrypto_ip.py", "independent KNX Data Secure / IP Secure CCM written from the specification on single-block AES only"),
 }
 manifest = {
  "version": 1,
